@@ -6,7 +6,7 @@ the prompt is issued exactly once per step under exactly the stepping condition,
 it names is the instruction's own."""
 import re
 import mir as M
-from cfgtools import Defs, origin, natural_loops, operand_locals, const_of
+from cfgtools import Defs, origin, natural_loops, operand_locals, const_of, fold_const
 from driver_rules import find_parse_call, idx_local, state_switch, trace_value
 
 EXPL = (
@@ -420,6 +420,18 @@ def run(ctx, chk):
             name = o[1][1].get("def") or ""
             if name.endswith("get_flag_state"):
                 return "T", o
+        if o[0] == "rvalue" and o[1][0] == "bin" and o[1][1] in ("Ne", "Eq", "Gt"):
+            # (vm.arch.flag & <single-bit mask>) != 0 : the flag bit read directly
+            for x, y in ((o[1][2], o[1][3]), (o[1][3], o[1][2])):
+                if const_of(y) == 0:
+                    ao = origin(defs, x)
+                    if ao[0] == "rvalue" and ao[1][0] == "bin" and ao[1][1] == "BitAnd":
+                        for fx, mx in ((ao[1][2], ao[1][3]), (ao[1][3], ao[1][2])):
+                            m = fold_const(defs, mx)
+                            fo = origin(defs, fx)
+                            if m is not None and m > 0 and m & (m - 1) == 0 and fo[0] == "place" and \
+                                    [e[2] for e in fo[1]["p"] if isinstance(e, list) and e[0] == "f"][-1:] == ["flag"]:
+                                return "T", ("mask", fo, m, o[1][1] == "Eq", ao[2] if len(ao) > 2 else o[2])
         if o[0] == "rvalue" and o[1][0] == "bin" and o[1][1] in ("Le", "Lt", "Ne", "Ge", "Gt", "Eq"):
             fa, fb = side_form(o[1][2]), side_form(o[1][3])
             if fa and fb and {fa[0], fb[0]} == {"idx", "len"}:
@@ -454,6 +466,8 @@ def run(ctx, chk):
                     val = 1 if cmp_true else 0
                 else:
                     val = 1 if v else 0
+                    if atom == "T" and o[0] == "mask" and o[3]:
+                        val = 1 - val  # (flag & mask) == 0
                 tgt = next((tg for vv, tg in t[2] if vv == val), t[3])
                 yield from walk(tgt, asg, count, seen)
                 return
@@ -496,6 +510,18 @@ def run(ctx, chk):
                           {"I": "the stepping region never tests the interpreted switch", "T": "the stepping region never tests the trap flag",
                            "R": "the stepping region never excludes the appended hlt"}[a], where)
     for b, o in atoms.get("T", []):
+        if o[0] == "mask":
+            _, fo, m, inv, cb = o
+            flag_ok = fo[1]["l"] == vm_local
+            trap_ok = (m == 1 << 8)
+            in_iter = cb in body and cfg.dominates(head, cb)
+            if flag_ok and trap_ok and in_iter:
+                chk.ok("C20.R4", f"atom:T@bb{b}", "vm.arch.flag & (1<<8) evaluated in the same iteration")
+            else:
+                chk.violation("C20.R4", "CMDDriver::run", "trap-flag-source",
+                              f"the stepping condition's flag test is not TF of the current flag word (flag word current: {flag_ok}, mask {m:#x} is TF: {trap_ok}, same iteration: {in_iter})",
+                              f"{where}:{line_of(drv, cb)}")
+            continue
         t = o[1]
         cb = o[2]
         flag_ok = False
